@@ -292,7 +292,7 @@ pub fn run_behaviour_sink(beh: &Value, out: &mut Out, sink: &mut PacketSink) {
     let mut handles: Vec<Option<Box<Toi>>> = Vec::new();
     let mut t: i64 = jopt_i(beh, "t0", 0);
     let ops = jget(beh, "ops").as_array().unwrap().clone();
-    let drain_cap = jopt_i(beh, "drain_cap", 5000);
+    let drain_cap = jopt_i(beh, "drain_cap", 2000);
 
     // one read call: returns false when the sender returned None or panicked
     let mut do_read = |sender: &mut Sender, ctx: &mut PktCtx, added: &Vec<(usize, u128)>, t: i64, out: &mut Out, sink: &mut PacketSink| -> i8 {
@@ -465,7 +465,10 @@ pub fn run_behaviour_sink(beh: &Value, out: &mut Out, sink: &mut PacketSink) {
                     }
                 }
                 if capped {
+                    // reads at one instant do not terminate: the behaviour ends here (the monitor reports it; going on would
+                    // only produce more of the same endless packets)
                     out.emit(&json!({"ev":"capped","t":t,"n":n}));
+                    dead = true;
                 }
             }
             "close" => {
